@@ -53,7 +53,9 @@ CLAIMS = {
          "examined (ghost call counters), and writes nothing but the ghost counters in every outcome. Far narrower than the property: serializability over "
          "interleavings, the comparison of each re-evaluated expectation, range readers and prefix fingerprints are not decided.",
          "DESIGN.md 3 (C05), 11"),
- "C06": ("Precondition semantics only: the three Validate functions accept exactly the well-formed preconditions (non-empty key within maxKeyLen, TxID > 0); "
+ "C06": ("Visibility gate and precondition semantics: every read of a transaction by id (ReadTx, ReadTxEntry, ReadTxHeader, readTx) goes through "
+         "appendableReaderForTx, which hands out a reader only for a precommitted transaction and, unless the caller explicitly allows precommitted ones, only for "
+         "a committed one, without moving the frontiers: a nil error of ReadTx / ReadTxEntry implies txID <= committedTxID; the three Validate functions accept exactly the well-formed preconditions (non-empty key within maxKeyLen, TxID > 0); "
          "the three Check functions are true exactly when their defining predicate holds on the answer of the index they are given (KeyMustExist, KeyMustNotExist, "
          "KeyNotModifiedAfterTx incl. deleted/expired/unknown keys); checkPreconditions applies a transaction only if all preconditions were checked and hold; "
          "hasPreconditions. Far narrower than the property: linearizability over concurrent histories, the indexing gate under concurrency, snapshots of "
